@@ -313,6 +313,22 @@ def rank(run, F):
             det = 'arms agree after removing the valid-count factor' if okm else \
                 'first difference: %s' % (d or 'valid count used elsewhere')
         run.ob('RANK.arms', fn, 'pct arm = plain arm / valid count', okm, loc(X), det)
+    # the tie average is a real-number average: no division in vrank truncates
+    run.rule('RANK.avg', 'the average rank of a tie group is a floating-point quotient: every division in '
+             'vrank (operator, compound assignment or a `*div*` method) has floating operands, so the mean of '
+             'the group\'s ranks is never truncated to an integer before it is written')
+    ndiv = 0
+    for x in walk(fn.hir):
+        isdiv = x.get('k') in ('Binary', 'AssignOp') and x.get('op') in ('Div', 'DivAssign', 'Rem', 'RemAssign')
+        ismeth = x.get('k') == 'MethodCall' and re.fullmatch(r'(checked_|wrapping_|saturating_|overflowing_|unchecked_)?(div|rem)(_euclid|_floor|_ceil)?|div|rem|div_assign', x.get('method', '')) is not None
+        if not (isdiv or ismeth):
+            continue
+        ndiv += 1
+        tys = [str(peel(c).get('ty')) for c in x.get('ch', [])[:2]]
+        okd = all(t_.lstrip('&') in ('f64', 'f32') for t_ in tys)
+        run.ob('RANK.avg', fn, 'division #%d has floating operands' % ndiv, okd, loc(x),
+               '%s : operand types %s' % (src(x)[:60], tys))
+    run.floor('RANK.avg', 'divisions in vrank', ndiv, 1)
     tail = re.compile(r"for (\w+) in [\w']+\.\.self\.len\(\) \{ [\w']+\.uset\([\w']+\.uget\(\1\), NULL\);? \}")
     run.ob('RANK.arms', fn, 'nulls (sorted last) receive NaN',
            bool(tail.search(plain_s)) and bool(tail.search(pct_s)), fn.loc(),
